@@ -468,9 +468,19 @@ def run(ctx):
             if fid in known:
                 rep.known(known[fid], {"case": il[pos][:300], "points": n, "why": why[:200]})
                 stats["known"][fid] = stats["known"].get(fid, 0) + n
+                case.setdefault("_hits", set()).add(fid)
             else:
                 rep.violation("C14 violated (model and implementation agree, not a recorded finding): %s | case: %s" % (why, il[pos][:300]),
                               dict(replay, impl=ir[:3000], model=mr[:3000], k_count=n))
+    # the refutation witnesses of Props/C14.v (corpus/C14/f<id>_*.json) must still show their finding on the real code
+    want = {"f10a": "F10a", "f10b": "F10b", "f10c": "F10c", "f14_1": "F14.1"}
+    for case, mode in jobs:
+        t = case.get("tag", "")
+        if mode == "fresh" and t.startswith("corpus/f"):
+            fid = [v for k, v in want.items() if t[len("corpus/"):].startswith(k)]
+            if fid and fid[0] not in case.get("_hits", ()):
+                rep.violation("refutation witness %s no longer shows finding %s on the implementation (theorem C14_*_refuted would be about the model only)" % (t, fid[0]),
+                              {"case": case_json(case), "names": "corpus witness vs Props/C14.v refutation"}, found_input=False)
     lib = run_lib(ctx, rnd, stats)
     rep.coverage.update({
         "evaluations": stats["failure_points"] + stats["cases"] + lib.get("lib_points", 0),
@@ -606,7 +616,8 @@ def run_lib(ctx, rnd, stats):
                 continue                                  # completed with the unfailed result, or failed cleanly
             fid = None
             if "reported-failure-but-message-changed" in v:
-                fid = "F14.2" if op == "set" else "F14.3" if op == "append" else None
+                # F14.2 is exactly the 7 reserved padding bytes left behind; anything else a header edit leaves is new
+                fid = "F14.2" if (op == "set" and v.endswith("reparse=invalid:len+7")) else "F14.3" if op == "append" else None
             if fid in known:
                 rep.known(known[fid], {"case": line[:200], "points": n, "verdict": v[:120]})
                 out["known"][fid] = out["known"].get(fid, 0) + n
